@@ -38,7 +38,7 @@ SPEC = {
             "correspondence incl. len() before every next().", "7 (C13)", ""),
     "C14": ("Kernel-checked agreement of the hash-based and scan-based import models for every input + result/ok-iff theorems + "
             "correspondence with an independent oracle.", "7 (C14)",
-            "Known finding: finite weights whose infoset total overflows binary64 normalise to the all-zero row (listed). "),
+            "Totals that overflow binary64 were a genuine defect (D17), repaired by fix: 2a29992; the model has the same rescaling branch. "),
     "C15": ("Model of the binary's pipeline after text parsing (json/gambit readers, Output assembly) executed against the shipped binary; kernel-checked: the printed numbers are get_info of the printed profile, for constant-sum Gambit files the utilities are each player's own expected payoff on the game as written and add up to the constant, printed strategies are valid rows with every name once. End-to-end monitor: printed strategies re-evaluated on the file-level game by an independent Python evaluator; -m full outputs vs library vs model.", "7 (C15)", "Text parsing (serde_json, gambit-parser), clap and I/O are dependencies, not modelled. "),
     "C16": ("Kernel-checked clip decision (pruned iff strictly lower regret, printed profile valid for every threshold incl. NaN/inf, never worse) + end-to-end correspondence of the binary with the library and the model over the option space (presets, budgets incl. -t 0, thresholds, threads, routes, formats); kernel-checked agreement of the JSON and Gambit reader models on two encodings of one game.", "7 (C16)", "Option plumbing (clap), route and format equivalences are decided by the differential check, not by a theorem. "),
     "C17": ("Kernel-checked semantic rejection layer of the reader model (total, a rejection yields no game, not-constant-sum iff the 0.1% rule, duplicate-infosets iff numeric clash or shared name per player with separate name spaces, game error iff from_root refuses) executed against the binary on the same parsed files + corruption stream on the shipped binary (exit status, documented anchors, no output).", "7 (C17)", "PARTIAL: malformed bytes / missing fields / player count are rejected by the dependencies' parsers; that part is a test with generator-computed expectations. "),
